@@ -13,7 +13,7 @@ SPEC = {
     },
     'search_args': ['-graphs', 3000, '-children', 9],
     'assumptions': [
-        'value graphs are trees of inline Go values whose pointers/slices/maps are addresses into a heap of cells; a cell index stands for one (address, type) reference as eq4i compares it: a pointer to the first field / element of a value is a cell of its own holding the same contents (the harness generates *Header -> Book's embedded first field and *Cell -> element 0 of a *[2]Cell)',
+        'value graphs are trees of inline Go values whose pointers/slices/maps are addresses into a heap of cells; a cell index stands for one (address, type) reference as eq4i compares it: a pointer to the first field / element of a value is a cell of its own holding the same contents (the harness generates *Header -> the embedded first field of a Book and *Cell -> element 0 of a *[2]Cell)',
         'C20_sound/C20_depth assume that every cycle passes through a pointer to struct/slice/array/map (nopush_wf): cycles through maps, slices, *interface{} or `type P *P` only are outside the property; the model exhausts every budget on them and the implementation overflows the stack / spins (child-process runs)',
         'the stack budget d counts nested edges of the value graph; one edge is a constant number of Go frames (encodeValue -> fn.fe -> kXxx)',
         'model of encodeValue/ci is hand written; tied by replaying Encode/Encode/Reset/Encode on the same graphs (vm_compute) and by mutation tests',
